@@ -599,11 +599,24 @@ def _children(o):
     return out
 
 
-def _mut_label(paths):
+def _qual_sets(o, prefix, out):
+    for k, v in (getattr(o, "qualifiers", None) or {}).items():
+        out[f"{prefix}/{k}"] = frozenset(v)
+    for i, ch in enumerate(_children(o)):
+        for k, v in (getattr(ch, "qualifiers", None) or {}).items():
+            out[f"{prefix}/child{i}/{k}"] = frozenset(v)
+    return out
+
+
+def _mut_label(paths, before=None, after=None):
+    """`mut(qualifiers)` ONLY for the exact shape of F-C10b: nothing but qualifier sets read differently, no key was
+    added or removed, and every set that changed GAINED values (superset of what it was)."""
     if all(p.endswith("#spelling") for p in paths):
         return "val(seqtype-spelling)"
     if all("qualifiers" in p for p in paths if p != "/eq_twin"):
-        return "mut(qualifiers)"
+        if before is not None and set(before) == set(after) and all(before[k] <= after[k] for k in before):
+            return "mut(qualifiers)"
+        return "mut(qualifier-keys-or-loss)"
     return f"mut({_short(paths[0])})"
 
 
@@ -664,7 +677,9 @@ def run_history(kindmode, seed, tokens, snap_every=True):
         if obj is None:
             obj = recipe.build()
             ctx = Ctx(recipe, obj)
-            snap0 = snapshot(recipe.build(), Ctx(recipe, None))   # the pristine reading (twin, untouched operands)
+            pristine = recipe.build()
+            snap0 = snapshot(pristine, Ctx(recipe, None))   # the pristine reading (twin, untouched operands)
+            quals0 = _qual_sets(pristine, "", {})
         got = ask(table[tok], obj, ctx)
         what = classify(got, ref[tok])
         if what:
@@ -672,14 +687,14 @@ def run_history(kindmode, seed, tokens, snap_every=True):
         if snap_every and (is_export(tok) or rng.random() < 0.25):
             ds = diff(snapshot(obj, ctx), snap0)
             if ds:
-                items.append((tok, step, _mut_label(ds)))
+                items.append((tok, step, _mut_label(ds, quals0, _qual_sets(obj, "", {}))))
                 if not all(p.endswith("#spelling") for p in ds):
                     break   # the object is no longer the object the references were computed for
     else:
         if obj is not None:
             ds = diff(snapshot(obj, ctx), snap0)
             if ds:
-                items.append(("end", len(tokens), _mut_label(ds)))
+                items.append(("end", len(tokens), _mut_label(ds, quals0, _qual_sets(obj, "", {}))))
     if not items:
         return "ok -"
     classes = ",".join(sorted({f"{base_name(tok)}:{what}" for tok, _, what in items}))
